@@ -247,6 +247,31 @@ class TreeConcreteStart(Histories):
         return histories(self.reps, concrete_start="always")
 
 
+class DsgeChildrenMutated(Histories):
+    """dSGE crossover children hold EMPTY gene lists for symbols their donor parent never read; they
+    are mapped, evaluated and then mutated several times (the mutation may pick such an empty list):
+    whatever the operator does about it, the genes of the individual it was given stay what they were."""
+
+    name = "dsge_crossover_children_mutated"
+    reps = ("dsge",)
+
+    def budget(self, tier):
+        return (60, 4) if tier == "quick" else (400, 8)
+
+    def strategy(self, tier):
+        block = st.builds(
+            lambda i, j, ms: [["raw", "crossover", i, j]] + [["raw", "mutate", m, 0] for m in ms],
+            st.integers(0, 7),
+            st.integers(0, 7),
+            st.lists(st.integers(0, 2), min_size=2, max_size=5),
+        )
+        return st.builds(
+            lambda c, blocks: {**c, "generations": [g for b in blocks for g in b]},
+            histories(self.reps),
+            st.lists(block, min_size=1, max_size=3),
+        )
+
+
 class SelectionContainers(Facet):
     """Selection steps (tournament, lexicase, elitism) and combinators over them must not modify the
     population CONTAINER they are given either: after the step the caller's list holds the same
@@ -346,4 +371,4 @@ def _kinds(j):
     return out
 
 
-FACETS = [Histories(), TreeConcreteStart(), SelectionContainers()]
+FACETS = [Histories(), TreeConcreteStart(), SelectionContainers(), DsgeChildrenMutated()]
